@@ -97,6 +97,15 @@ Theorem C01_inline_equalconst_sound : forall env r a v, okn env a -> 0 < snd r -
   forall l e, inl_equalconst r a v = [(l, e)] -> assign_value env l e = b2z (val env a =? v).
 Proof. exact inl_equalconst_sound. Qed.
 
+(* BitsLSBF / BitsMSBF: the assign emitted for listed wire k stores what propagate() stores into that wire, every k *)
+Theorem C01_inline_bits_sound : forall env a b k, okn env a -> 0 < snd b -> 0 <= k < snd a -> k < 2 ^ 31 ->
+  assign_value env (whole b) (RBit (fst a) (snd a) (RNum k)) = Wire_put (snd b) (Z.land (py_shr (val env a) k) 1).
+Proof. exact inl_bits_sound. Qed.
+Theorem C01_bits_propagate_nth : forall wa lw v k, (k < wa)%nat ->
+  nth k (BitsLSBF_propagate (Z.of_nat wa) lw v) 0 = Wire_put (nth k lw 0) (Z.land (py_shr v (Z.of_nat k)) 1) /\
+  nth k (BitsMSBF_propagate (Z.of_nat wa) lw v) 0 = Wire_put (nth k lw 0) (Z.land (py_shr v (Z.of_nat k)) 1).
+Proof. exact bits_propagate_nth. Qed.
+
 (* BodyReg vs Reg.clock over EVERY input history (d any width, 1-bit enable, any-width reset, |reset_value| < 2^31):
    the value of rq after each edge equals the value Reg.clock prepares for q, provided rq starts equal to the stored
    value truncated (which `reg rq = reset_value` establishes in Verilog; see C01_reg_powerup_refuted for the simulator side) *)
@@ -154,6 +163,8 @@ Print Assumptions C01_inline_nary_sound.
 Print Assumptions C01_inline_nnary_sound.
 Print Assumptions C01_inline_equal_sound.
 Print Assumptions C01_inline_equalconst_sound.
+Print Assumptions C01_inline_bits_sound.
+Print Assumptions C01_bits_propagate_nth.
 Print Assumptions C01_reg_sound_partial.
 Print Assumptions C01_mux2_wide_select_refuted.
 Print Assumptions C01_reg_wide_enable_refuted.
